@@ -828,7 +828,7 @@ func (env *cenv) evalCall(t ECall) cval {
 			return cval{v: Val{v.v[0]}, T: types.Typ[types.Uintptr]}
 		}
 		env.errf("base of %v", v.T)
-	case "nsend", "sendsame", "lastsend":
+	case "nsend", "sendsame", "lastsend", "sendbare":
 		v := env.eval(t.Args[0])
 		if _, ok := v.T.Underlying().(*types.Interface); !ok {
 			env.errf("%s of non-interface", name)
@@ -839,6 +839,8 @@ func (env *cenv) evalCall(t ECall) cval {
 			return cval{v: Val{e.ghost(env.cur, gkey("nsend", sock), BV(64))}, T: tInt}
 		case "sendsame":
 			return cval{v: Val{e.ghost(env.cur, gkey("sendsame", sock), Bool)}, T: tBool}
+		case "sendbare":
+			return cval{v: Val{e.ghost(env.cur, gkey("sendbare", sock), Bool)}, T: tBool}
 		}
 		T := env.resolveType("knxnet.ServicePackable")
 		return cval{v: Val{e.ghost(env.cur, gkey("lastsend", sock)+"#0", BV(64)), e.ghost(env.cur, gkey("lastsend", sock)+"#1", BV(64))}, T: T}
@@ -858,6 +860,11 @@ func (env *cenv) evalCall(t ECall) cval {
 		// byte i of the slice most recently handed to the network
 		i := env.toInt64(env.eval(t.Args[0]))
 		base := e.ghost(env.cur, "lastwrite.base", BV(64))
+		return cval{v: Val{e.read(env.cur.h[0], c.Add(base, i))}, T: tByte}
+	case "pbyte":
+		// byte i of the header most recently returned by (*bufio.Reader).Peek
+		i := env.toInt64(env.eval(t.Args[0]))
+		base := e.ghost(env.cur, "peek.base", BV(64))
 		return cval{v: Val{e.read(env.cur.h[0], c.Add(base, i))}, T: tByte}
 	case "gobj":
 		ks, ok := t.Args[0].(EStr)
@@ -1447,6 +1454,7 @@ func (env *cenv) deepFootprint(T types.Type, v Val, addr *Term, cond *Term, dept
 	if depth > 9 {
 		return
 	}
+	e.tick()
 	add := func(ET types.Type, start, count *Term) {
 		sl := e.P.lay.slots(ET)
 		used := [4]bool{}
